@@ -44,7 +44,7 @@ void do_op(string op, string ctx) {
   switch (f[0]) {
   case "co":
     h = call_out("cb" + f[1], to_int(f[2]), f[3]);
-    handles[f[3]] = h;
+    "/reg"->set_handle(f[3], h);
     vlog("\"e\":\"Sched\",\"ctx\":" + jq(ctx) + ",\"ob\":" + jq(me()) + ",\"fn\":" + jq(f[1]) + ",\"d\":" + to_int(f[2]) + ",\"id\":" + jq(f[3]) + ",\"h\":" + h);
     break;
   case "rmn":
@@ -52,7 +52,7 @@ void do_op(string op, string ctx) {
     vlog("\"e\":\"Rm\",\"ctx\":" + jq(ctx) + ",\"by\":\"name\",\"ob\":" + jq(me()) + ",\"fn\":" + jq(f[1]) + ",\"ret\":" + r);
     break;
   case "rmh":
-    r = remove_call_out(handles[f[1]]);
+    r = remove_call_out("/reg"->get_handle(f[1]));
     vlog("\"e\":\"Rm\",\"ctx\":" + jq(ctx) + ",\"by\":\"handle\",\"ob\":" + jq(me()) + ",\"id\":" + jq(f[1]) + ",\"ret\":" + r);
     break;
   case "fdn":
@@ -60,7 +60,7 @@ void do_op(string op, string ctx) {
     vlog("\"e\":\"Fd\",\"ctx\":" + jq(ctx) + ",\"by\":\"name\",\"ob\":" + jq(me()) + ",\"fn\":" + jq(f[1]) + ",\"ret\":" + r);
     break;
   case "fdh":
-    r = find_call_out(handles[f[1]]);
+    r = find_call_out("/reg"->get_handle(f[1]));
     vlog("\"e\":\"Fd\",\"ctx\":" + jq(ctx) + ",\"by\":\"handle\",\"ob\":" + jq(me()) + ",\"id\":" + jq(f[1]) + ",\"ret\":" + r);
     break;
   case "err":
@@ -83,7 +83,7 @@ void do_op(string op, string ctx) {
   case "mk":
     o = new(f[2]);
     "/reg"->put(f[1], o);
-    vlog("\"e\":\"Mk\",\"ctx\":" + jq(ctx) + ",\"by\":" + jq(me()) + ",\"ob\":" + jq(f[1]) + ",\"file\":" + jq(f[2]));
+    vlog("\"e\":\"Mk\",\"ctx\":" + jq(ctx) + ",\"by\":" + jq(me()) + ",\"ob\":" + jq(f[1]) + ",\"file\":" + jq(f[2]) + ",\"fname\":" + jq(file_name(o)));
     break;
   case "say":
     write(f[1] + "\n");
